@@ -39,6 +39,7 @@ Next ==
         /\ agg' = IF e.e = "end" THEN Bump(agg, nm.armed) ELSE agg
         /\ l' = l + 1
         /\ (newbad # {}) => PrintT("VIOL " \o ToJson([l |-> l, id |-> id, bad |-> newbad]))
+        /\ (e.e = "end" /\ id # "") => PrintT("RUN " \o ToJson([id |-> id, armed |-> nm.armed]))
         /\ (l = Len(Rec)) => PrintT("STATS " \o ToJson([events |-> Len(Rec), runs |-> nruns', armed |-> agg']))
 
 Spec == Init /\ [][Next]_vars
